@@ -9,10 +9,10 @@ def run(ctx):
     q = ctx.tier == 'quick'
     seed = ctx.seed
     # sizes (case counts, never seconds)
-    lfull, lmax = (4, 8) if q else (5, 10)          # aggregation: full product up to lfull links, all patterns up to lmax
+    lfull, lmax = (4, 8) if q else (6, 11)          # aggregation: full product up to lfull links, all patterns up to lmax
     n_aggr = 2500 if q else 60000                    # random aggregation cases per shard
     n_memo = 1500 if q else 20000                    # memo sequences per process
-    lc, pmax = (12, 1024) if q else (14, 4096)       # calendar: direction strings up to lc links x publication times 0..pmax
+    lc, pmax = (12, 1024) if q else (15, 8192)       # calendar: direction strings up to lc links x publication times 0..pmax
     n_calr = 20000 if q else 400000                  # random calendar cases per shard
     ls, n_shape = (14, 2000) if q else (20, 40000)   # shape: all patterns up to ls links; random patterns per length 56..70
 
@@ -42,7 +42,8 @@ def run(ctx):
         '(255,256,2^32,2^64-1) carrying a correction; each x start levels {0,1,254,255} x entries KSI_HashChain_aggregate and '
         'KSI_AggregationHashChain_aggregate; sibling kinds (imprint of every known algorithm / legacy id / metadata) and the '
         'chain algorithm rotate with the index; (c) random chains of 1..300 links, random start level, corrections incl. values '
-        'that truncate to small/negative ints, built by setters and by parsing reference-built TLV, chain lists of 1..5 chains; '
+        'that truncate to small/negative ints, built by setters (metadata from TLV or from KSI_MetaDataElement setters) and by parsing '
+        'reference-built TLV, again after KSI_AggregationHashChain_getIdentity walked the metadata, chain lists of 1..5 chains; '
         '(d) one object called 4..13 times with different start levels (memo). calendar: every direction string of <=%d links x '
         'every publication time 0..%d against the explicitly built tree, random 32/64-bit times (top bit set included) with '
         'the path of a random leaf and mutations of it; random calendar chains with algorithm switches through '
@@ -52,7 +53,8 @@ def run(ctx):
     ctx.assumptions = [
         'OpenSSL EVP digests (SHA-1, SHA-256, RIPEMD-160, SHA-384, SHA-512) are correct; all else is re-implemented in harness/c03_chain.c from DESIGN.md Appendix A',
         'a chain without links, and a publication time >= 2^63 (not representable in time_t), may be rejected or answered; only a wrong answer is flagged',
-        'metadata sibling bytes = payload bytes of the metadata TLV as put on the wire by the reference encoder',
+        'metadata sibling bytes = payload bytes of the metadata TLV as put on the wire by the reference encoder; when a child carries a '
+        'non-minimal 16-bit header the root over the minimally re-encoded payload is accepted too (counted as an observation)',
         'ASan+UBSan build of the library',
     ]
     ctx.exhaustive = False
